@@ -1,6 +1,6 @@
 (* C01 — every PEL section is decoded once, in order, from exactly its own bytes. *)
 From Coq Require Import List NArith ZArith Bool Arith.
-From PV Require Gen.Layouts Spec.PublishedLayouts Proofs.LayoutFacts.
+From PV Require Gen.Layouts Spec.PublishedLayouts Proofs.LayoutFacts Gen.Sections Spec.PublishedSections Proofs.SectionFacts.
 From PV Require Import Base.Bytes Base.Lit Base.Json Base.Utf8 Base.Reader Base.PelTypes
                        Model.Parse Model.Render Model.Pel Model.Env Spec.Encode Spec.DocOf Spec.Choice Gen.Tables
                        Proofs.ParseFacts Proofs.SrcFacts Proofs.PelFacts Proofs.RenderFacts Proofs.NumberFacts Proofs.NumberDistinct.
@@ -108,6 +108,24 @@ Theorem C01_source_length_driven :
   Gen.Layouts.ok_Default = true /\ Gen.Layouts.rd_Default = Spec.PublishedLayouts.rd_Default.
 Proof. repeat split; reflexivity. Qed.
 Print Assumptions C01_source_length_driven.
+
+(* SOURCE-TEXT tie of the section walk.  harness/extract_sections.py extracts, on every run, the if / elif chain of sectionFun (which
+   section ids each branch accepts, and the class the branch's generate function constructs and renders), the class of the final
+   else, and the loop of parsePEL over the optional sections.  They are the published ones, and the model's choice of a body
+   reader is, for EVERY section id, the reader of the class that table gives (so an id routed to another class, a branch
+   dropped or reordered across overlapping ids, or a changed default breaks one of the two theorems). *)
+Theorem C01_source_section_dispatch :
+  Gen.Sections.ok_sections = true /\
+  Gen.Sections.section_dispatch = Spec.PublishedSections.section_dispatch /\
+  Gen.Sections.section_default = Spec.PublishedSections.section_default /\
+  Gen.Sections.section_loop = Spec.PublishedSections.section_loop.
+Proof. repeat split; reflexivity. Qed.
+Print Assumptions C01_source_section_dispatch.
+Theorem C01_dispatch_is_model : forall id len,
+  parse_body id len =
+  SectionFacts.reader_of_class (SectionFacts.class_of Gen.Sections.section_dispatch Gen.Sections.section_default id) len.
+Proof. exact SectionFacts.parse_body_is_dispatch. Qed.
+Print Assumptions C01_dispatch_is_model.
 
 Theorem C01_header_reader_is_layout : forall s,
   parse_header s = match LayoutFacts.read_fields Spec.PublishedLayouts.rd_parseHeader s with
